@@ -1,7 +1,7 @@
 #!/bin/bash
 # usage: tools/run_all.sh quick|thorough  — runs every claimed check sequentially, prints one line each
 tier="${1:-quick}"
-cd /verif
+cd "$(dirname "${BASH_SOURCE[0]}")/.."
 for id in $(python3 -c "import json;print(' '.join(c['property_id'] for c in json.load(open('MANIFEST.json'))['checks']))"); do
   s=$(date +%s)
   out=$(./run.sh $id $tier 2>&1)
